@@ -87,7 +87,27 @@ pub fn damaged_item() {
     let which = sym::choose(items.len());
     let key = items[which].clone();
     let original = ad.read().unwrap().read_object(&key, 0, 0).unwrap();
-    let damage = sym::choose(5);
+    let damage = sym::choose(6);
+    if damage == 5 {
+        // the item is stored under a name with a different index / a different digest character (renamed)
+        let bad = copy_storage(&ad, Some(&key), None);
+        let renamed = if key.ends_with(".delta") {
+            match key.split_once('-') {
+                Some((idx, rest)) => format!("{}-{}", idx.parse::<u32>().unwrap() + 1, rest),
+                None => key.clone(),
+            }
+        } else {
+            let (first, rest) = key.split_at(1);
+            format!("{}{}", if first == "0" { "1" } else { "0" }, rest)
+        };
+        bad.write().unwrap().write_object(&renamed, &original).unwrap();
+        let expected = if items1.contains(&key) { empty_state() } else { s1.clone() };
+        if let Some(s) = open_state(&bad) {
+            assert!(s == expected, "an item stored under a name that does not match its content was trusted");
+        }
+        sym::reach(1);
+        return;
+    }
     let damaged: Option<Vec<u8>> = match damage {
         0 => None, // removed
         1 => Some(Vec::new()), // emptied
